@@ -537,8 +537,10 @@ def compileStep (cfg : Cfg) (enc : Enc) (st : CP) (t : RawTag) : Except PyErr (L
       | .ok p => .ok (⟨x.code, .vtx⟩ :: p.1, p.2)
     else .error .dxfStructureError
 
-/-- `byte_tag_compiler`; at the end of the stream a pending x or (x, y) is dropped (StopIteration is swallowed) -/
+/-- `byte_tag_compiler`; at the end of the stream a pending x is dropped (StopIteration is swallowed); a pending
+    (x, y) is a 2D point (`z = next(tags, None)`, fix of the trailing-2D-point defect, as in `tag_compiler`) -/
 def compileGo (cfg : Cfg) (enc : Enc) : CP → List RawTag → Except PyErr (List CTag)
+  | .xy x y, [] => if floatsOk [x.val, y.val] then .ok [⟨x.code, .vtx⟩] else .error .dxfStructureError
   | _, [] => .ok []
   | st, t :: r =>
     match compileStep cfg enc st t with
